@@ -93,6 +93,23 @@ def run(chk, repo):
     got = sorted((n - f).key() for f in forms)
     chk.decide(got == ["i", "j"], "C10.tables", WA("lag_matrix"), "factors blk[n - %s] * blk[n - %s]" % tuple(got),
                why="entry (i, j) sums blk[n-i] * blk[n-j]", node=lm)
+    ge_ = subs[0]
+    while ge_ is not None and not isinstance(ge_, (ast.GeneratorExp, ast.ListComp)):
+        ge_ = getattr(ge_, "_parent", None)
+    okp = ge_ is not None and isinstance(ge_.elt, ast.BinOp) and isinstance(ge_.elt.op, ast.Mult) \
+        and {id(ge_.elt.left), id(ge_.elt.right)} == {id(subs[0]), id(subs[1])} \
+        and isinstance(getattr(ge_, "_parent", None), ast.Call) and unparse(ge_._parent.func) == "sum" and len(ge_._parent.args) == 1
+    chk.decide(okp, "C10.tables", WA("lag_matrix"), "entry = sum(%s ...)" % (unparse(ge_.elt) if ge_ is not None else "?"),
+               why="each entry is the plain sum of the products of the two shifted samples", node=lm)
+    dflt_ = [st for st in guard[0].body if isinstance(st, ast.Assign) and unparse(st.targets[0]) == "max_lag"] if guard else []
+    okd = False
+    if len(dflt_) == 1:
+        try:
+            okd = Evaluator(call_hook=e9.len_hook).ev(dflt_[0].value) == Llen - 1
+        except Inconclusive:
+            okd = False
+    chk.decide(okd, "C10.tables", WA("lag_matrix"), "default max_lag: " + (short(dflt_[0]) if dflt_ else "?"),
+               why="documented default len(blk) - 1 (the largest lag with a non-empty sum)", node=lm)
     rngs = {v: (lo, hi) for v, lo, hi in e9.enclosing_ranges(subs[0], lm)}
     ok = rngs.get("n") is not None and rngs["n"][0] == RF.sym("max_lag") and rngs["n"][1] == Llen - 1 \
         and all(v in rngs and rngs[v][0] == 0 and rngs[v][1] == RF.sym("max_lag") for v in ("i", "j"))
@@ -304,6 +321,9 @@ def run(chk, repo):
         wl = [synth]
         counted = True
     chk.require(len(wl) == 1, "lpc.kcovar: main loop not found")
+    chk.decide(isinstance(wl[0].test, ast.Constant) and bool(wl[0].test.value) is True and not wl[0].orelse, "C10.kcovar",
+               WL("lpc[kcovar]"), "order recursion runs until its own termination test: while %s" % unparse(wl[0].test),
+               why="the recursion must go on until m reaches the order", node=wl[0])
 
     def hk2(ev, name, node):
         if name == "inner":
